@@ -354,7 +354,13 @@ func (it *Interp) formatIntNow(x *Term, signed bool) Str {
 		}
 	}
 	k := it.ex.choose("digits", conds, true) + 1
-	base := it.ex.freshName("digit")
+	// the digit variables are named after what defines them (the hash-consed magnitude
+	// term and the digit count), so structurally shared terms over them are consistent
+	// across paths
+	base := fmt.Sprintf("dg%d_%d", mag.id, k)
+	if mag.id == 0 {
+		base = it.ex.freshName("digit")
+	}
 	ds := make([]*Term, k) // ds[0] is the most significant
 	sum := mkInt(0)
 	var cons []*Term
@@ -379,6 +385,7 @@ func (it *Interp) formatIntNow(x *Term, signed bool) Str {
 	defn := &varDefn{cons: mkAnd(cons...)}
 	for _, d := range ds {
 		d.defn = defn
+		d.defs = []*Term{defn.cons}
 	}
 	var out []*Term
 	if neg {
